@@ -7,6 +7,7 @@
 #include <GeographicLib/Rhumb.hpp>
 #include <GeographicLib/Math.hpp>
 #include <algorithm>
+#include <new>
 using namespace GeographicLib; using namespace gv;
 
 static const double SENT[8] = {1.25e77, 2.25e77, 3.25e77, 4.25e77, 5.25e77, 6.25e77, 7.25e77, 8.25e77};
@@ -22,6 +23,15 @@ static bool same(double a, double b) { return bits(a) == bits(b) || (std::isnan(
 static std::string tk(double x) { return std::isnan(x) ? "nan" : hx(x); }
 static double untk(const std::string& s) { return s == "nan" ? Math::NaN() : unhx(s); }
 
+// A default-constructed line object built over memory painted with `fill`: the default constructors set `_caps` only, so the
+// other members are whatever the memory held.  fill = 0 / 1 make the member `bool _exact` of GeodesicLine a valid false / true
+// (both branches of GenPosition, deterministically); fill = 7 is the garbage a stack usually holds (see finding G12-1).
+template<class Line> struct DefLine {
+  alignas(Line) unsigned char buf[sizeof(Line)];
+  Line* p;
+  explicit DefLine(int fill) { std::memset(buf, fill, sizeof buf); asm volatile("" : : "r"(buf) : "memory"); p = new (buf) Line(); }
+  ~DefLine() { p->~Line(); }
+};
 // Run `body` in a forked child and forward what it prints.  Used for the operations on a *default-constructed* line: if the
 // sanitizer aborts the child, the parent reports it as a failing input of this op (#BAD) and the remaining cases still run.
 #include <sys/wait.h>
@@ -69,8 +79,8 @@ static Reg r_linemask("linemask", [](const Args& a) {
   emit(std::to_string(o.written()) + " " + (std::isnan(r) ? "1" : "0"));
 });
 // a default-constructed line: Init() is false, nothing can be located
-template<class Line> static void uninit_line(const unsigned* fl, unsigned om, bool arc) {
-  Line l; Outs o; double r = l.GenPosition(arc, arc ? 20.0 : 2e6, om, o.v[0], o.v[1], o.v[2], o.v[3], o.v[4], o.v[5], o.v[6], o.v[7]);
+template<class Line> static void uninit_line(const unsigned* fl, unsigned om, bool arc, int fill) {
+  DefLine<Line> dl(fill); const Line& l = *dl.p; Outs o; double r = l.GenPosition(arc, arc ? 20.0 : 2e6, om, o.v[0], o.v[1], o.v[2], o.v[3], o.v[4], o.v[5], o.v[6], o.v[7]);
   // the overloads and the accessors of an uninitialised object
   Outs p; double r2 = l.Position(2e6, p.v[0], p.v[1], p.v[2], p.v[4], p.v[5], p.v[6], p.v[7]); l.ArcPosition(20, p.v[0], p.v[1], p.v[2], p.v[3], p.v[4], p.v[5], p.v[6], p.v[7]);
   if (p.written() || !std::isnan(r2)) bad("uninitialised-line", "Position/ArcPosition of a default-constructed line wrote an output or returned a number");
@@ -83,8 +93,9 @@ template<class Line> static void uninit_line(const unsigned* fl, unsigned om, bo
   emit(std::to_string(o.written()) + " " + (std::isnan(r) ? "1" : "0"));
 }
 static Reg r_uninitmask("uninitmask", [](const Args& a) {
-  unsigned om = unsigned(std::stoul(a[1])); bool arc = a[2] == "1";
-  in_child([&] { if (a[0][0] == 'E') uninit_line<GeodesicLineExact>(FLAGS_E, om, arc); else uninit_line<GeodesicLine>(FLAGS_G, om, arc); });
+  unsigned om = unsigned(std::stoul(a[1])); bool arc = a[2] == "1"; int fill = std::stoi(a[3]);
+  auto body = [&] { if (a[0][0] == 'E') uninit_line<GeodesicLineExact>(FLAGS_E, om, arc, fill); else uninit_line<GeodesicLine>(FLAGS_G, om, arc, fill); };
+  if (fill > 1 && a[0][0] != 'E') in_child(body); else body();
 });
 static Reg r_invmask("invmask", [](const Args& a) {
   unsigned om = unsigned(std::stoul(a[1])); Outs o; int k = ellOf(a[0]); // slots: s12->3, azi1/azi2 -> 2 (must be written together), m12..S12
@@ -331,7 +342,7 @@ template<class Geod, class Line> static void linehist(const Geod& g, const unsig
     if (ctor == "G0") return g.GenDirectLine(lat1, lon1, azi1, false, cx, cp);
     if (ctor == "G1") return g.GenDirectLine(lat1, lon1, azi1, true, cx, cp);
     if (ctor == "I") return g.InverseLine(lat1, lon1, cx, cy, cp);
-    return Line(); };
+    DefLine<Line> dl(ctor.size() > 1 ? ctor[1] - '0' : 0); return *dl.p; };
   Line l = make(caps);                     // the object that lives through the history
   const Line fr = make(ALLM);              // a fresh object with every capability: supplies the numeric kernels
   auto arcOf = [&](double s) { double u; return fr.GenPosition(false, s, 0u, u, u, u, u, u, u, u, u); };
@@ -352,7 +363,7 @@ template<class Geod, class Line> static void linehist(const Geod& g, const unsig
     else if (e == "rA") res += " " + tk(l.Arc());
     else if (e == "r0") res += " " + tk(l.GenDistance(false));
     else if (e == "r1") res += " " + tk(l.GenDistance(true));
-    else if (e == "cp") { Line c2(l); Line c3; c3 = c2; l = c3; res += " -"; }
+    else if (e == "cp") { Line c2(l); Line c3(c2); c3 = c2; l = c3; res += " -"; }
     else { bad("harness", "unknown history event " + e); }
   }
   double fD = l.Distance(), fA = l.Arc();
@@ -365,7 +376,7 @@ template<class Geod, class Line> static void linehist(const Geod& g, const unsig
     if (!same(l2.Distance(), fD) || !same(l2.Arc(), fA))
       bad("history-dependence", "after the history Distance() = " + tk(fD) + ", Arc() = " + tk(fA) + "; a fresh line given only the last setter call has Distance() = " + tk(l2.Distance()) + ", Arc() = " + tk(l2.Arc())); }
   // (b) a third point that is only half defined must say so: Distance() is a number only if the line can use it or it is what the caller set
-  if (ctor != "U") {
+  if (ctor[0] != 'U') {
     bool hasDin = (caps | (ctor == "D" || ctor == "G0" ? fl[4] : 0u)) & (1u << 11), hasD = (caps | (ctor == "I" && (caps & (1u << 11)) ? fl[3] : 0u)) & (1u << 10);
     if (lastset >= 0) { std::string tag = a[lastset].substr(0, 2); double x = untk(a[lastset].substr(2)); bool arcset = tag == "sA" || tag == "g1";
       if (arcset && !hasD && !std::isnan(fD)) bad("stale-third-point", "the third point was set by arc on a line without the DISTANCE capability, yet Distance() = " + tk(fD));
@@ -373,7 +384,7 @@ template<class Geod, class Line> static void linehist(const Geod& g, const unsig
       if (arcset && !same(fA, x)) bad("third-point", "SetArc/Arc"); if (!arcset && !same(fD, x)) bad("third-point", "SetDistance/Distance"); }
   } else if (!std::isnan(fD) || !std::isnan(fA)) bad("uninitialised-line", "Distance()/Arc() of a default-constructed line is a number");
   // (c) Distance() and Arc() address the same point when both are numbers
-  if (ctor != "U" && std::isfinite(fD) && std::isfinite(fA) && (ell == 0 || ell == 3) && std::fabs(fD) < 1e8) {
+  if (ctor[0] != 'U' && std::isfinite(fD) && std::isfinite(fA) && (ell == 0 || ell == 3) && std::fabs(fD) < 1e8) {
     double la, lo, la2, lo2; fr.ArcPosition(fA, la, lo); fr.Position(fD, la2, lo2);
     double d = std::hypot(la - la2, Math::AngDiff(lo, lo2) * std::cos(la * Math::degree())) * 111e3;
     if (std::fabs(la) < 89.9 && !(d < 100e-9 * std::fmax(1.0, std::fabs(fA) / 180))) bad("arc-vs-distance", "ArcPosition(Arc()) and Position(Distance()) differ by " + std::to_string(d * 1e9) + " nm"); }
@@ -392,7 +403,7 @@ static Reg r_linehist("linehist", [](const Args& a) {
   int k = ellOf(a[0]);
   auto body = [&] { if (a[0][0] == 'E') linehist<GeodesicExact, GeodesicLineExact>(E(k), FLAGS_E, k, a);
     else linehist<Geodesic, GeodesicLine>(a[0][0] == 'G' ? G(k) : X(k), FLAGS_G, k, a); };
-  if (a[4] == "U") in_child(body); else body();
+  if (a[4][0] == 'U' && a[4] != "U0" && a[4] != "U1" && a[0][0] != 'E') in_child(body); else body();
 });
 
 // ---------------------------------------------------------------------------------------------------------------------
@@ -415,7 +426,8 @@ void gv::generate(const std::string& tier, uint64_t seed) {
     unsigned om = s >= 3 ? (osel << 7) : build(fl, osel);
     run("invmask", {svi[s], std::to_string(om)}); run("dirmask", {svi[s], std::to_string(om), "0"}); if (s < 3) run("dirmask", {svi[s], std::to_string(om), "1"});
     if (s >= 3) for (double s12 : {2e6, 1.2e7, -1.3e7, 3e7}) run("rlinemask", {svi[s], std::to_string(om), hx(s12)});     // 1.2e7 m at azimuth 30 from latitude 10 passes the pole
-    if (s < 3 && (th || osel % 4 == 0)) for (int arc = 0; arc < 2; ++arc) run("uninitmask", {svi[s], std::to_string(om), arc ? "1" : "0"});
+    if (s < 3 && (th || osel % 4 == 0)) for (int arc = 0; arc < 2; ++arc) for (int fill = 0; fill < (s == 2 ? 1 : 2); ++fill) run("uninitmask", {svi[s], std::to_string(om), arc ? "1" : "0", std::to_string(fill)});
+    if (s < 2 && osel == 511) run("uninitmask", {svi[s], std::to_string(om), "1", "7"});      // the state a stack usually leaves (finding G12-1)
   }
   stratum("written-solvers");
   // Capabilities(): every capability set x test sets
@@ -473,11 +485,12 @@ void gv::generate(const std::string& tier, uint64_t seed) {
   }
   // (5) the third point under random histories: every capability set x solver x constructor
   const char* ctors[8] = {"L", "GL", "U", "D", "A", "G0", "G1", "I"};
-  int per = th ? 6 : 1;
+  int per = th ? 6 : 1; int nU7[2] = {0, 0};
   for (int s = 0; s < 3; ++s) for (unsigned csel = 0; csel < 512; ++csel) for (int rep = 0; rep < per; ++rep) {
     const unsigned* fl = s == 2 ? FLAGS_E : FLAGS_G; unsigned caps = build(fl, csel);
     int ell = r.irange(0, 7) ? 0 : r.irange(1, 3);
     std::string ctor = ctors[(csel + rep * 3 + s) % 8]; if (r.irange(0, 40) == 0) ctor = "U";
+    if (ctor == "U") ctor = s == 2 ? "U0" : nU7[s]++ == 3 ? "U7" : r.coin() ? "U0" : "U1";
     auto dist = [&]() { int q = r.irange(0, 11); return q == 0 ? 0.0 : q == 1 ? -0.0 : q == 2 ? 1e-3 : q == 3 ? Math::NaN() : q == 4 ? (r.coin() ? 1.0 : -1.0) * std::numeric_limits<double>::infinity() : q == 5 ? 1e7 : r.range(-3e7, 5e7); };
     auto arcv = [&]() { int q = r.irange(0, 11); return q == 0 ? 0.0 : q == 1 ? -0.0 : q == 2 ? 90.0 : q == 3 ? Math::NaN() : q == 4 ? 180.0 : q == 5 ? 1e-7 : r.range(-400, 400); };
     double lat1 = r.irange(0, 7) ? r.range(-89, 89) : r.pick(std::vector<double>{0, 90, -90}), lon1 = r.range(-180, 180), azi = r.irange(0, 7) ? r.range(-180, 180) : r.pick(std::vector<double>{0, 90, 180});
@@ -488,7 +501,7 @@ void gv::generate(const std::string& tier, uint64_t seed) {
       if (q < 2) a.push_back("sD" + tk(dist())); else if (q < 4) a.push_back("sA" + tk(arcv())); else if (q == 4) a.push_back("g0" + tk(dist())); else if (q == 5) a.push_back("g1" + tk(arcv()));
       else if (q < 8) a.push_back("rD"); else if (q < 10) a.push_back("rA"); else if (q == 10) a.push_back("r0"); else if (q == 11) a.push_back("r1"); else a.push_back("cp"); }
     run("linehist", a);
-    stratum("history-" + ctor);
+    stratum("history-" + ctor.substr(0, ctor[0] == 'U' ? 1 : 2));
     if (csel == 5 && rep == 0) sample(current_op());
   }
 }
